@@ -52,6 +52,8 @@ def main():
             print(n, "patch does not apply")
             continue
         sh(["git", "apply", patch], "/repo")
+        # one parallel build of every monitor from the patched tree (the per-check builds are then no-ops)
+        brc, bout = sh(["cargo", "build", "--release", "--offline", "--quiet", "--bins"], "/verif/harness")
         results = {}
         alarms = []
         try:
@@ -65,7 +67,7 @@ def main():
                         alarms.append({"check": pid, "seed": seed, "exit": rc, "lines": lines})
         finally:
             sh(["git", "checkout", "--", "."], "/repo")
-        meta["silence_trial"] = {"checks_run": sorted(results), "all_exit_0": not alarms, "alarms": alarms}
+        meta["silence_trial"] = {"checks_run": sorted(results), "monitors_build_against_the_change": brc == 0, "all_exit_0": not alarms, "alarms": alarms}
         json.dump(meta, open(mp, "w"), indent=1)
         print(n, "SILENT" if not alarms else "ALARM " + json.dumps(alarms)[:600], flush=True)
     # rebuild everything from the clean tree and put the clean-tree evidence back
